@@ -79,6 +79,15 @@ CHECKS = {
         "note": "Small-scope exhaustive (length bound, fixed alphabet and environment). Inputs with NUL/BOM/invalid UTF-8 excluded (text/scanner alters them); trailing lone '%' accepted either way.",
         "technique": _TLC,
     },
+    "C10": {
+        "level": "exploration",
+        "text": "ValueLit.tla enumerates the value domain as (container shape, leaf edge class) - 32 shapes x the edge classes of 16 leaf types (904 values) - and states the round-trip law; "
+                "each value is built with reflect, rendered with snippet.Value (three times, for determinism), type-checked on its own by go/types with exactly the registered imports, and all "
+                "well-typed literals are compiled into one program whose canonical output is compared with the original's; ValueLitTrace.tla judges the logged verdicts. TLA+ supplies the domain "
+                "and the law only: encode/decode fidelity itself is decided by the compiler in the conformance step, hence exploration level.",
+        "note": "Lenient typing (untyped representable constants accepted); deep equality identifies -0 and +0, nil and empty containers; single-level pointers, finite floats, exported fields.",
+        "technique": "TLA+-enumerated domain + law, TLC trace judge over go/types / compiler / compiled-program verdicts",
+    },
     "C11": {
         "level": "model_checking",
         "text": "TypeLit.tla enumerates every well-formed closed type expression up to the tier depth (12 leaves incl. error, any, named types of three packages - one same-named clash - "
